@@ -25,6 +25,15 @@ not come from the module under test:
   sparse dtypes       one of four (pixel int, pixel float, index) dtype triples per history; dtype.str and
                       the itype attribute must survive
   float32 columns     in the widened pass
+  value kinds         the python TYPE that carries a parameter-like value (header parameters, parameter
+                      dictionaries, sparse meta attributes, grain names / peak counts): one of python objects,
+                      numpy float64/int64/str_ scalars, 0-d arrays, float32/int32 scalars per history
+                      (c18_replay.PAR_KINDS, variant // 4; every kind must reach a writer in every family);
+                      c18_extra.value_kinds has the full kind x route matrix incl. arbitrary float32 values
+  near twins          every second history of the widened pass gives o2 the values of o1 changed in the last
+                      bit / 6th digit / +-1 (integer typed) / sign of zero: every overwrite (hdf tables, grains,
+                      sparse frames, text files in place) also runs with nearly equal data and must store
+                      exactly the new values; at the level of the model: action Nudge, Storage_near.cfg
   c18_extra.py        integers beyond 2^53, long grain lists, hand-edited text files (ragged last row,
                       blank lines), default group names and compression of the hdf writers
 Step laws of the hdf routes compare the sign of zero (text routes: "-0.0000" is within the precision).
@@ -56,6 +65,10 @@ WRITES = {"WriteText", "WriteHdf", "WriteHdfObj", "ConvHdf", "SavePars", "WriteG
 READS = {"ReadText", "ReadHdf", "ReadAuto", "ReadMmap", "LoadFresh", "LoadInto", "ReadGrains", "ReadUbis",
          "ReadGrainsH5", "ReadSparse"}
 WRITER_OF = {"WriteHdf": "colfile_to_hdf", "ConvHdf": "colfile_to_hdf", "WriteSparse": "sparse_frame.to_hdf_group"}
+# writers that can overwrite what is in a file: a near twin (c18_widen.Widener) must reach each of them
+# (text writers and ConvHdf are counted as well; quantisation to the print precision can hide a near change)
+NEAR_OPS = {"table": ["WriteHdf"], "pars": [], "grains": ["PutGrainH5"], "sparse": ["WriteSparse"]}
+NEAR_CFG = "Storage_near.cfg"
 NPROC = 8
 WORKERS = int(os.environ.get("C18_WORKERS", "16"))
 
@@ -200,13 +213,13 @@ def _work(args):
             hist, ea, ef = expectations(recs, key)
             import c18_widen as W
             if batch is not None:
-                variant = (n + batch) % 4
+                variant = (n + batch) % 16
                 ren = W.title_batches()[batch]
                 r = replay_titles(hist, ea, ef, os.path.join(root, "t%d_%d" % (batch, n)), variant, ren)
                 r["n"], r["variant"], r["batch"], r["rename"] = n, variant, batch, ren
                 out.append(r)
                 continue
-            variant = n % 4
+            variant = n % 16         # API route / sparse dtypes (mod 4) x value kind of the parameters (div 4)
             r = R.replay(family, hist, seeds_of(ea[0]), ea, ef, os.path.join(root, "b%d" % n), variant,
                          relations=W.relations)
             r["n"] = n
@@ -296,6 +309,9 @@ class Judge(object):
         chk.evaluations += r.get("checks", 0)
         if r.get("order_dev") and not mode.startswith("titles"):     # (substituted names: the order is not the model's)
             chk.notes["hdf_title_order_deviations"] = chk.notes.get("hdf_title_order_deviations", 0) + 1
+        if r.get("nkinded") and any(o in WRITES for o in ops):
+            vk = chk.notes.setdefault("value_kinds", {}).setdefault(family, {})
+            vk[r["pk"]] = vk.get(r["pk"], 0) + 1
         if r["okF"]:
             return "held"
         # the reproducer is the history up to the step at which the real code leaves the intended world
@@ -337,6 +353,11 @@ class Judge(object):
         self.chk.evaluations += w.get("checks", 0)
         nt = self.chk.notes
         nt["widened_float32_columns"] = nt.get("widened_float32_columns", 0) + w.get("f32_columns", 0)
+        if w.get("near"):
+            nr = nt.setdefault("near_twins", {}).setdefault(family, {"histories": 0, "near_overwrites": {}})
+            nr["histories"] += 1
+            for op, k in (w.get("near_overwrites") or {}).items():
+                nr["near_overwrites"][op] = nr["near_overwrites"].get(op, 0) + k
         if w.get("crash"):
             raise common.MachineryError("widened replay crashed:\n" + w["crash"])
         if w["fail"]:
@@ -392,7 +413,7 @@ def run_family(chk, judge, family, tier, widen, shadow):
         run_cfg(chk, judge, family, cfg, cover, tier, widen, shadow)
 
 
-def run_cfg(chk, judge, family, cfg, cover, tier, widen, shadow):
+def run_cfg(chk, judge, family, cfg, cover, tier, widen, shadow, keep=None):
     res = common.run_tlc("Storage", os.path.join(common.SPECS, cfg), workers=WORKERS, coverage=(tier != "quick"),
                          timeout=1500, heap="6g")
     chk.add_tlc("Storage %s (%s)" % (family, cfg), res, require_cover=cover)
@@ -407,6 +428,8 @@ def run_cfg(chk, judge, family, cfg, cover, tier, widen, shadow):
             raise common.MachineryError("%s: %d emitted records for %d states (%d unparsable)" % (
                 cfg, len(recs), res.states, skipped))
     keys = leaves(recs)
+    if keep is not None:
+        keys = [k for k in keys if keep(k)]
     opcount = {}
     for k in recs:
         for a in k[1:]:
@@ -432,6 +455,14 @@ def run_cfg(chk, judge, family, cfg, cover, tier, widen, shadow):
             d = R.SPARSE_DTYPES[r.get("variant", 0) % len(R.SPARSE_DTYPES)]
             k = "%s/%s/%s" % (d["i"], d["f"], d["itype"])
             vc[k] = vc.get(k, 0) + 1
+    vk = chk.notes.get("value_kinds", {}).get(family, {})
+    for pk in R.PAR_KINDS:
+        if not vk.get(pk):
+            raise common.MachineryError("vacuity: no history of %s hands parameter values of kind %s to a writer" % (cfg, pk))
+    nr = chk.notes.get("near_twins", {}).get(family, {}).get("near_overwrites", {})
+    for op in NEAR_OPS[family]:
+        if widen and not nr.get(op) and not judge.viol:      # (a broken writer changes what is counted)
+            raise common.MachineryError("vacuity: no near twin of %s overwrites nearly equal data with %s" % (cfg, op))
     chk.notes.setdefault("families", {})[cfg] = {
         "family": family, "states": res.states, "histories_replayed": len(keys), "verdicts": verdicts,
         "ops_in_histories": opcount, "replay_wall_s": round(time.time() - t0, 1)}
@@ -489,6 +520,24 @@ def run_titles(chk, judge, shadow):
         "module_table_vs_pinned": W.formats_note()}
 
 
+def run_near(chk, judge, tier, shadow):
+    """overwriting with nearly equal data at the level of the specification: Storage_near.cfg (action Nudge)"""
+    cover = ["WriteText", "ReadText", "WriteHdf", "WriteHdfObj", "ReadHdf", "Nudge"]
+    # replayed: the histories with a write after a Nudge (the others are histories of the table family)
+    def keep(k):
+        ops = [a[0] for a in k]
+        return "Nudge" in ops and any(o in WRITES for o in ops[ops.index("Nudge") + 1:])
+    recs, keys = run_cfg(chk, judge, "table", NEAR_CFG, cover, tier, 0, shadow, keep=keep)
+    pats = {"WriteHdf": 0, "WriteText": 0}
+    for k in keys:
+        if len(k) == 4 and k[2][0] == "Nudge" and k[1][0] == k[3][0] and k[1][0] in pats and k[1][1:4] == k[3][1:4] \
+                and k[2][1] == k[3][1]:
+            pats[k[1][0]] += 1
+    if not all(pats.values()):
+        raise common.MachineryError("vacuity: no history writer ; Nudge(o) ; writer(o) in %s: %s" % (NEAR_CFG, pats))
+    chk.notes["near_model_histories"] = pats
+
+
 def run_stale(chk, judge):
     """the design-level counterexample: TLC violates InvStale; it is confirmed against the real code"""
     cfg = "Storage_stale.cfg"
@@ -523,6 +572,7 @@ def run(tier, replay=None):
     for family in ("table", "pars", "grains", "sparse"):
         run_family(chk, judge, family, tier, widen, shadow)
     run_titles(chk, judge, shadow)
+    run_near(chk, judge, tier, shadow)
     run_stale(chk, judge)
     # widened instances beyond the TLC alphabet (ints that are not binary64 values, grain lists longer than ten)
     import c18_extra
@@ -542,7 +592,9 @@ def run(tier, replay=None):
         chk.violation(what, case)
     chk.rule = ("one representative history per distinct (state, depth) of Storage.tla; every maximal history "
                 "is executed with real files and compared with the model after every step; Storage_title.cfg "
-                "once per batch of pinned titles (all 179 + unknown names); non-trivial = a write followed later by a read")
+                "once per batch of pinned titles (all 179 + unknown names); Storage_near.cfg: every history with a "
+                "write after a Nudge; value kind of the parameters rotates with the history; non-trivial = a write "
+                "followed later by a read")
     chk.exhaustive = True
     chk.assumptions = [
         "python float()/int()/Fraction parse decimal text exactly (used to observe file contents)",
